@@ -680,16 +680,23 @@ struct MpSession : public vw::Session {
       if (sz > ap.getMaxPopDataSize()) fail("generated PopData is larger than the configured maximum");
       if (SerializeToVbkEncoding(P).size() != sz) fail("estimateSize of the generated PopData is not its encoded size");
       {
-        if (!validator) {
-          // the validator's worker queue is sized from the block limits (and cannot be 0): give it default limits
-          valt.reset(new AltChainParamsRegTest(I.p.alt));
-          valt->mMaxVbkBlocksInAltBlock = 200;
-          valt->mMaxVTBsInAltBlock = 200;
-          valt->mMaxATVsInAltBlock = 1000;
-          validator.reset(new PopValidator(I.p.vbk, I.p.btc, *valt, 1));
+        // the validator's worker queue is sized from the block limits and cannot be 0
+        const auto& al = I.p.alt;
+        if (al.mMaxVbkBlocksInAltBlock + al.mMaxVTBsInAltBlock + al.mMaxATVsInAltBlock == 0) {
+          if (!P.empty()) fail("limits are all zero but the generated PopData is not empty");
+        } else {
+          if (!validator) {
+            // the queue must hold at least two items; larger limits only loosen the size checks of checkPopData,
+            // the limits themselves are checked above
+            valt.reset(new AltChainParamsRegTest(I.p.alt));
+            valt->mMaxVbkBlocksInAltBlock = std::max<size_t>(valt->mMaxVbkBlocksInAltBlock, 2);
+            valt->mMaxVTBsInAltBlock = std::max<size_t>(valt->mMaxVTBsInAltBlock, 2);
+            valt->mMaxATVsInAltBlock = std::max<size_t>(valt->mMaxATVsInAltBlock, 2);
+            validator.reset(new PopValidator(I.p.vbk, I.p.btc, *valt, 1));
+          }
+          ValidationState st;
+          if (!checkPopData(*validator, P, st)) fail("generated PopData fails the stateless check: " + st.GetPath());
         }
-        ValidationState st;
-        if (!checkPopData(*validator, P, st)) fail("generated PopData fails the stateless check: " + st.GetPath());
       }
       for (auto& x : P.context)
         if (onActiveChain(I, x.getId())) fail("generated VBK block " + idname(*reg, x.getId()) + " is already on the active chain");
@@ -731,20 +738,50 @@ struct MpSession : public vw::Session {
       }
       return "ok";
     }
-    if (c == "bits") return bits(I);
+    if (c == "bits") return bits(I, t.size() > 1 ? t[1] : std::string());
+    if (c == "mpv") return dumpViews(I);
+    if (c == "info") return info(t[1]);
     return "";
   }
 
   // tree verdict bits for the pool model: per known payload whether the contextual check passes, per relation
   // tooOld / in the stable tree
-  std::string bits(Instance& I) {
+  // "<block carried> <its parent> <its height>" of a payload (for the pool model)
+  std::string info(const std::string& id) {
+    const VbkBlock* b = nullptr;
+    if (id[0] == 't' && reg->atv.count(id)) b = &reg->atv.at(id).blockOfProof;
+    if (id[0] == 'w' && reg->vtb.count(id)) b = &reg->vtb.at(id).containingBlock;
+    if (id[0] == 'v' && reg->vbk.count(id)) b = &reg->vbk.at(id);
+    if (b == nullptr) return "SKIP";
+    std::string parent = "?";
+    for (auto& kv : reg->vbk)
+      if (kv.second.getHeight() + 1 == b->getHeight() &&
+          kv.second.getHash().template trimLE<VbkBlock::prev_hash_t::size()>() == b->getPreviousBlock()) parent = kv.first;
+    return idname(*reg, b->getId()) + " " + parent + " " + std::to_string(b->getHeight());
+  }
+  // connected sets and the in-flight sorted views IN VIEW ORDER
+  std::string dumpViews(Instance& I) {
+    auto& mp = *I.mempool;
+    std::string s = "C atv=" + join(connectedIds<ATV>(I)) + " vtb=" + join(connectedIds<VTB>(I)) + " F atv=";
+    std::vector<std::string> a, w, v;
+    for (auto& x : mp.getInFlightMap<ATV>().getSortedValues()) a.push_back(idname(*reg, x->getId()));
+    for (auto& x : mp.getInFlightMap<VTB>().getSortedValues()) w.push_back(idname(*reg, x->getId()));
+    for (auto& x : mp.getInFlightMap<VbkBlock>().getSortedValues()) v.push_back(idname(*reg, x->getId()));
+    return s + join(a, false) + " vtb=" + join(w, false) + " vbk=" + join(v, false);
+  }
+  std::string bits(Instance& I, const std::string& extra) {
     auto& mp = *I.mempool;
     auto& stable = mp.mempool_tree_.vbk().getStableTree();
     std::vector<std::string> stale, old, onchain, present;
     auto ca = [&](const ATV& a) { ValidationState st; if (!mp.mempool_tree_.checkContextually(a, st)) stale.push_back(idname(*reg, a.getId())); };
     auto cw = [&](const VTB& a) { ValidationState st; if (!mp.mempool_tree_.checkContextually(a, st)) stale.push_back(idname(*reg, a.getId())); };
-    for (auto& kv : reg->atv) if (mp.get<ATV>(kv.second.getId())) ca(kv.second);
-    for (auto& kv : reg->vtb) if (mp.get<VTB>(kv.second.getId())) cw(kv.second);
+    std::vector<std::string> nobtc;
+    for (auto& kv : reg->atv) if (mp.get<ATV>(kv.second.getId()) || kv.first == extra) ca(kv.second);
+    for (auto& kv : reg->vtb)
+      if (mp.get<VTB>(kv.second.getId()) || kv.first == extra) {
+        cw(kv.second);
+        if (!btcAvailable(mp, kv.second)) nobtc.push_back(kv.first);
+      }
     {
       const typename MemPool::payload_map<VbkBlock>& m = mp.getInFlightMap<VbkBlock>();
       for (auto& kv : m) { ValidationState st; if (!mp.mempool_tree_.checkContextually(*kv.second, st)) stale.push_back(idname(*reg, kv.first)); }
@@ -756,7 +793,8 @@ struct MpSession : public vw::Session {
       if (stable.getBlockIndex(kv.second.getHash()) != nullptr) onchain.push_back(kv.first);
       if (mp.mempool_tree_.vbk().getBlockIndex(kv.second.getHash()) != nullptr) present.push_back(kv.first);
     }
-    return "stale=" + join(stale) + " old=" + join(old) + " onchain=" + join(onchain) + " present=" + join(present);
+    return "stale=" + join(stale) + " nobtc=" + join(nobtc) + " old=" + join(old) + " onchain=" + join(onchain) +
+           " present=" + join(present);
   }
 
   // ------------------------------------------------------------ top level
